@@ -28,6 +28,11 @@ RULE = ("(1) digests: random feature-rich fonts (2-4 scripts incl. RTL/Indic, ke
         "compileTTF, compileOTF, compileVariableTTF, compileVariableCFF2, compileInterpolatable{TTFs,OTFs}FromDS; sha256 of every "
         "saved font must equal the first-call digest of the reference interpreter; a mismatch is bisected to the tables that differ. "
         "Every 6th font: many sparse kerning classes + GPOS compaction through ONE shared ftConfig dict; every 6th: propagated anchor keys that collide; contextual (*) anchors with identifiers in a third; some histories start with a compile of ANOTHER font. "
+        "Every 6th digest case (i % 6 == 1) passes filter OBJECTS through filters=[...] (a TransformationsFilter with Origin = cap height / half cap height / "
+        "x height / half x height / baseline, mostly with a scale or slant, pre or post; in 40 % a second filter object: decompose / flatten / "
+        "sortContours / decomposeTransformed; in half '...' = plus the lib filters): every non-reference interpreter creates the instances ONCE "
+        "and hands the same objects to every call of its history, and at least one interpreter per case starts with a compile of another font "
+        "with OTHER capHeight / xHeight / ascender using those same filter objects; the reference interpreter makes new equal instances per call. "
         "Two designspaces in three carry 1-2 <variable-font> elements whose lib['public.fontInfo'] overrides 1-6 fontinfo attributes (names, "
         "vertical metrics, weight/width, version, panose, flags ...; mostly values the masters do not have): the variable builds then run "
         "PostProcessor.apply_fontinfo -> InfoCompiler on the caller's default master, all <variable-font>s are compiled "
@@ -50,7 +55,11 @@ RULE = ("(1) digests: random feature-rich fonts (2-4 scripts incl. RTL/Indic, ke
         "with each other; `closest` = propagateAnchors._bounds + _component_closest_to_origin on the copied glyph set of such a composite "
         "built with defcon and with ufoLib2, compared with the closed-form exact corners and the model's argmin. "
         "non-trivial = digests case with >= 2 scripts, kerning pairs and marks; emitter case whose two orders really differ.")
-ASSUMED = ["datetime.fromtimestamp(e, utc).strftime is the proleptic Gregorian calendar (an external library: modelled as civil-from-days "
+ASSUMED = ["filter objects given through filters=[...] are treated as immutable option values by the model (`history` / `publicCompile` take "
+           "the options by value): that a filter instance carries nothing from one call (font) into the next is OBSERVED by the digest "
+           "histories with shared instances, not proved; inplace steps are left out of those cases until finding F2 (anchors moved by a "
+           "filter are read from the caller's source font, so inplace=True changes GPOS/GDEF) is listed",
+           "datetime.fromtimestamp(e, utc).strftime is the proleptic Gregorian calendar (an external library: modelled as civil-from-days "
            "arithmetic, which is PROVED equal to the year-by-year / month-by-month count for every e >= 0 - created_calendar, created_unique in "
            "Props/C08Calendar.lean; that datetime itself agrees is observed per case through `denotes`); int() of the environment text is an "
            "input; 0 <= SOURCE_DATE_EPOCH (a Nat in the model; datetime additionally raises above 253402300799 = 9999-12-31 23:59:59, not modelled)",
@@ -216,7 +225,28 @@ def _gen_vfinfo(rng):
     return out
 
 
-def _gen_digest_case(rng, i, thorough):
+def _gen_filter_objs(rng):
+    """filter INSTANCES for the `filters=` argument of the compile functions (specs; the worker instantiates them once per
+    interpreter): mostly a TransformationsFilter whose matrix depends on the font (Origin = cap height / x height or their
+    halves + a scale or slant), sometimes a second stateless-by-contract filter; "..." = also run the filters of the UFO lib"""
+    kw = {"Origin": rng.choice([0, 0, 1, 2, 3, 3, 4])}
+    sy, sx, sl = rng.choice([50, 75, 125, 100]), rng.choice([100, 100, 80]), rng.choice([0, 0, 0, 10])
+    if (sx, sy, sl) == (100, 100, 0) and rng.random() < 0.8:
+        sy = 50
+    for k, v, d in (("ScaleX", sx, 100), ("ScaleY", sy, 100), ("Slant", sl, 0), ("OffsetX", rng.choice([0, 0, 10]), 0),
+                    ("OffsetY", rng.choice([0, 0, -20]), 0)):
+        if v != d:
+            kw[k] = v
+    out = [{"name": "transformations", "kwargs": kw, "pre": rng.random() < 0.5}]
+    if rng.random() < 0.4:
+        out.insert(rng.randrange(2), {"name": rng.choice(["decomposeComponents", "flattenComponents", "sortContours",
+                                                          "decomposeTransformedComponents"]), "kwargs": {}, "pre": rng.random() < 0.5})
+    if rng.random() < 0.5:
+        out.insert(rng.choice([0, len(out)]), "...")
+    return out
+
+
+def _gen_digest_case(rng, i, thorough, with_inplace=False):
     # every 6th case: a designspace with many sparse kerning classes, compiled with GPOS compaction requested through ONE
     # shared ftConfig dict (option objects are part of the call history)
     compact = i % 6 == 0
@@ -260,6 +290,18 @@ def _gen_digest_case(rng, i, thorough):
         if memonly:
             p["source"], p["reopen"] = "mem", None
     opts = OPTS[-1] if compact else rng.choice(OPTS)
+    # every 3rd case: filter OBJECTS passed through `filters=`; each non-reference interpreter makes them once and hands the
+    # same instances to every call of its history, incl. the compile of ANOTHER font with other vertical metrics that some
+    # histories start with (an option object used before must behave like a new, equal one)
+    if i % 3 == 1 and not markliga:   # (markliga cases are built around exact distances a transformation would change)
+        opts = dict(opts, filterObjs=_gen_filter_objs(rng))
+        # finding F2 (same root as F1): anchors MOVED by a filter are read from the caller's source font by the feature writers,
+        # so inplace=True (filter applied to the source itself) gives other GPOS/GDEF than inplace=False.  inplace steps run in
+        # these cases only once that finding is listed (or with C08_FINDINGS=1 / in the search stream); the inplace facet stays
+        # covered by the other two thirds of the cases
+        if not with_inplace:
+            for p in procs:
+                p["steps"] = [st for st in p["steps"] if st[1] != "inplace"]
     # two designspaces in three: <variable-font> elements whose lib["public.fontInfo"] overrides fontinfo of the variable font
     # only (the overrides are data of the DESIGNSPACE; the masters, and every later compile of them, must not see them)
     vfinfo = _gen_vfinfo(rng) if (not static and i % 3 != 2) else None
@@ -277,7 +319,11 @@ F1_SHAPE = {"shape": "propagated-anchor-looked-up-in-source-font", "differs": "i
             "without_inplace": "TypeError (gdef carets, variable mark anchors) or the anchor is ignored (curs)"}
 
 
-def _finding_listed():
+F2_SHAPE = {"shape": "filter-moved-anchor-looked-up-in-source-font", "differs": "inplace=True only",
+            "trigger": "TransformationsFilter object in filters=[...]", "tables": "GPOS/GDEF only"}
+
+
+def _finding_listed(shape=F1_SHAPE):
     """the reproducers of finding F1 run in the normal stream only once the integrator has listed the finding (or with
     C08_FINDINGS=1); they always run in the search stream"""
     import os
@@ -285,7 +331,7 @@ def _finding_listed():
         return True
     try:
         import core
-        return any(f.get("property") == ID and f.get("shape") == F1_SHAPE for f in core.load_findings())
+        return any(f.get("property") == ID and f.get("shape") == shape for f in core.load_findings())
     except Exception:
         return False
 
@@ -393,8 +439,9 @@ def gen(rng, n, mode):
                 it = dict(_gen_toadd(rng, adversarial or rng.random() < 0.25), op=k, seed=s)
             items.append(it)
         yield {"kind": "emit", "items": items}
+    f2 = adversarial or _finding_listed(F2_SHAPE)
     for i in range(n):
-        yield _gen_digest_case(rng, i, thorough)
+        yield _gen_digest_case(rng, i, thorough, f2)
 
 
 # ------------------------------------------------------------------------------------------------ running the real code
@@ -800,7 +847,9 @@ def _run_digests(case):
     tags.update(["scripts=%d" % len(st.get("scripts", [])), "cats:" + str(st.get("cats")), "lsys:" + str(st.get("lsys")),
                  "masters=%d" % len(case["fds"]), "vf-fontinfo=%d" % len(case.get("vfinfo") or []), "contextual-anchors=%d" % min(st.get("ctx", 0), 2),
                  "colliding-propagated-anchors:" + str(bool(st.get("collide"))), "mark-only-ligature-with-curve-extrema:" + str(bool(st.get("markliga"))),
-                 "SOURCE_DATE_EPOCH:" + ("default" if case.get("epoch") is None else "0" if int(case["epoch"]) == 0 else "other"), "dense-kerning:" + str(bool(st.get("dense")))] + ["opt:" + k for k in case["opts"]] + ["filter:" + f for f in st.get("filters", [])])
+                 "SOURCE_DATE_EPOCH:" + ("default" if case.get("epoch") is None else "0" if int(case["epoch"]) == 0 else "other"), "dense-kerning:" + str(bool(st.get("dense")))] + ["opt:" + k for k in case["opts"]]
+                + ["filter-object:" + (f if isinstance(f, str) else f["name"] + (":origin=%s" % f["kwargs"].get("Origin") if f["name"] == "transformations" else ""))
+                   for f in case["opts"].get("filterObjs", [])] + ["filter:" + f for f in st.get("filters", [])])
     if any(s.startswith("ERR") for s in ref.values()):
         tags.add("ref-error")
     nontrivial = len(st.get("scripts", [])) >= 2 and st.get("pairs", 0) > 0 and st.get("marks", 0) > 0
@@ -893,7 +942,8 @@ def classify_failure(res):
     errs = ("ERR:TypeError:'NoneType' object is not subscriptable", "ERR:TypeError:cannot unpack non-iterable NoneType object")
     fd = req["case"]["fds"][0]
     has_filter = any(f.get("name") == "propagateAnchors" for f in fd.get("lib", {}).get("com.github.googlei18n.ufo2ft.filters", []))
-    if not mm or not has_filter:
+    moved = any(isinstance(f, dict) and f["name"] == "transformations" for f in req["case"]["opts"].get("filterObjs", []))
+    if not mm or not (has_filter or moved):
         return None
     layout = {"GPOS", "GDEF", "~fea"}
     for m in mm:
@@ -908,6 +958,9 @@ def classify_failure(res):
     for m in mm:   # the inplace runs agree with each other
         if good.setdefault(m["kind"], m["digest"]) != m["digest"]:
             return None
+    if moved:
+        # F2: every deviating run is an inplace run whose fonts differ from the reference in the layout tables only
+        return F2_SHAPE if not any(ref[m["kind"]].startswith("ERR") for m in mm) or has_filter else None
     return F1_SHAPE
 
 
@@ -925,7 +978,9 @@ LEVEL_TEXT = ("Proved for all inputs (Lean): every modelled place where the kern
               "origin for every list of bounds (closest_spec), so the two library branches of _bounds choose alike whenever they report the "
               "same corners (closest_lib_agnostic) - that they do is observed, on curves without on-curve extrema. Decisive runtime part: sha256 of "
               "fonts from fresh interpreters over hash seeds x histories x UFO library x memory/disk x inplace x container order.")
-LEVEL_NOTE = ("Trusted: Lean kernel + standard axioms; the correspondence harness; determinism of fontTools & co. is measured, not modelled; hash seeds "
+LEVEL_NOTE = ("Filter objects in filters=[...] (option objects with a call history of their own, e.g. TransformationsFilter's "
+              "font-dependent origin height): observation only - sha256 of fonts compiled with instances already used on another font vs. with "
+              "new instances; no Lean model of filter-instance state. Trusted: Lean kernel + standard axioms; the correspondence harness; determinism of fontTools & co. is measured, not modelled; hash seeds "
               "are sampled. The Lean models cover the emitters listed in Model/C08.lean, not whole writers (those are C05/C06/C18's models). "
               "MATH / colour layers excluded here (C07 findings). The InfoCompiler model covers the constructor's Info handling only; that the "
               "name/OS2/hhea/head/post values of the variable font are a function of that temporary Info, and that nothing ELSE in a variable "
